@@ -15,7 +15,7 @@ from ..core import rule, AnalysisError
 from ..engine import rx
 from ..engine.facts import dotted, const, src, walk_func, str_value, ancestors
 from ..engine import pattern as P
-from .common import calls, access_paths, pn
+from .common import calls, access_paths, pn, lexer_side_scanner, resolve, resolve_deep, guards_of, sym_cases, branch_paths
 from . import c03  # printer-indents-first-line-only is registered for C19 there
 
 # expression classes of the statement's grammar
@@ -447,7 +447,7 @@ def _continuation_flag_writes(fn):
 def remargin_siblings(ctx):
     """the two scanners that decide 'inside a multi-line string / continuation' while a block is re-margined (lexer side and printer side) track the same lexical features"""
     db = ctx.db
-    a = db.func("pygen.adjust_whitespace.in_multi_line")
+    a = lexer_side_scanner(db)
     b = db.func("pygen.PythonPrinter._in_multi_line")
     fa, pa = _features(a, db)
     fb, pb = _features(b, db)
@@ -479,7 +479,7 @@ def remargin_siblings(ctx):
     ok = P.has(fl, "self._reset_multi_line_flags()") and P.has(fl, "for $e in self.line_buffer:\n    if self._in_multi_line($e):\n        self.stream.write($e + '\\n')\n    else:\n        ...")
     ctx.check(ok, "printer.verbatim-inside-strings", db.where(fl), "lines inside a multi-line string are not written unchanged", "lines inside strings written verbatim")
     aw = db.func("pygen.adjust_whitespace")
-    ok = P.has(aw, "for $l in re.split($rx, %s):\n    if in_multi_line($l):\n        $ls.append($l)\n    else:\n        $l = $l.expandtabs()\n        ..." % pn(aw, 0))
+    ok = P.has(aw, "for $l in re.split($rx, %s):\n    if %s($l):\n        $ls.append($l)\n    else:\n        $l = $l.expandtabs()\n        ..." % (pn(aw, 0), a.name))
     ctx.check(ok, "lexer.verbatim-inside-strings", db.where(aw), "adjust_whitespace alters lines inside multi-line strings", "lines inside strings kept verbatim")
     ok = False
     for _n, env_ in P.find(aw, "if $s is None and re.search($rx, $l):\n    $s = re.match($rx2, $l).group(1)"):
